@@ -115,6 +115,8 @@ type Exec struct {
 	borrow     map[string]borrowInfo // byte slices returned by Scanner.Bytes: scanner and its generation at that time
 	nBorrow    int
 	nWFrame    int
+	coverPCs   map[string][]*Term
+	coverPos   map[string]string
 	curRets    []*Term
 	replayOff  bool
 	deferIdx   map[*ast.DeferStmt]int
@@ -419,6 +421,9 @@ func verifyFunction(u *Universe, fi *FuncInfo, c *Contract) (obls []*Obligation,
 	if len(outs.brk) > 0 || len(outs.cont) > 0 {
 		x.fail(fi.Body, "break/continue outside loop")
 	}
+	for _, tag := range sortedKeys(x.coverPCs) {
+		x.obls = append(x.obls, &Obligation{Func: x.fi.Name, Name: x.uniq(fmt.Sprintf("%s#cover#return%s", x.fi.Name, tag)), Kind: "cover", Hyps: []*Term{Or(x.coverPCs[tag]...)}, Goal: False, Mode: x.mode, ExpectSat: true, Text: "return reachable (on some path)", Pos: x.coverPos[tag], LemmaIndex: -1})
+	}
 	return x.obls, x, nil
 }
 
@@ -564,6 +569,9 @@ func (x *Exec) merge(states []*State) []*State {
 	}
 	if x.c.Options["paths-in-loops"] && len(x.loopPath) > 0 && len(states) <= 10 {
 		return states // keep the paths of a loop body separate: smaller, more ground queries
+	}
+	if x.c.Options["paths"] && len(x.loopPath) == 0 && len(states) <= 32 {
+		return states // straight-line code with few branches: one obligation per path instead of ite-terms
 	}
 	// common prefix of pcs
 	p := len(states[0].pc)
@@ -1392,7 +1400,17 @@ func (x *Exec) finishReturn(s *State, vals []*Term, entry *State, tag string, li
 		return
 	}
 	if !x.suppress {
-		x.obls = append(x.obls, &Obligation{Func: x.fi.Name, Name: x.uniq(fmt.Sprintf("%s#cover#return%s", x.fi.Name, tag)), Kind: "cover", Hyps: append([]*Term(nil), s.pc...), Goal: False, Mode: x.mode, ExpectSat: true, Text: "return reachable", Pos: fmt.Sprintf("%s:%d", x.fi.File, line), LemmaIndex: -1})
+		if x.c.Options["paths"] {
+			// with one state per path some paths are infeasible by design: the return must be reachable on one of them
+			if x.coverPCs == nil {
+				x.coverPCs = map[string][]*Term{}
+				x.coverPos = map[string]string{}
+			}
+			x.coverPCs[tag] = append(x.coverPCs[tag], And(s.pc...))
+			x.coverPos[tag] = fmt.Sprintf("%s:%d", x.fi.File, line)
+		} else {
+			x.obls = append(x.obls, &Obligation{Func: x.fi.Name, Name: x.uniq(fmt.Sprintf("%s#cover#return%s", x.fi.Name, tag)), Kind: "cover", Hyps: append([]*Term(nil), s.pc...), Goal: False, Mode: x.mode, ExpectSat: true, Text: "return reachable", Pos: fmt.Sprintf("%s:%d", x.fi.File, line), LemmaIndex: -1})
+		}
 	}
 	env := x.envFor(s, entry, token.NoPos)
 	// in postconditions parameter names denote the values at entry (Go parameters are mutable locals)
